@@ -9,6 +9,110 @@ LEVEL = "other"
 SPIIF = "mipidsi::interface::spi::SpiInterface"
 
 
+def is_pixel_pull(ev):
+    """a `next` on the caller's pixel stream: it yields arrays of words"""
+    if ev.kind != "call" or TR.classify(ev).cls != "NEXT" or not isinstance(ev.ret, SymV):
+        return False
+    t = ev.ret.ty
+    return t.get("k") == "adt" and t.get("def") == "core::option::Option" and t["args"] and t["args"][0].get("k") == "array"
+
+
+def pulls_some(ex, facts, anns):
+    """(number of pixel pulls in the annotated events that yield Some on this path, undecided ones)"""
+    k, und = 0, []
+    for a_ in anns:
+        ev = a_["ev"]
+        if not is_pixel_pull(ev):
+            continue
+        f2 = facts.copy()
+        if not all(f2.assume(c, 1) for c in a_["conds"]):
+            continue                        # this alternative is not on the path
+        v = f2.simplify(ex.variant_cond(ev.ret, 1)).const_value()
+        if v == 1:
+            k += 1
+        elif v is None:
+            und.append(TR.where(ev))
+    return k, und
+
+
+def check_no_pixel_dropped(R, F, ex, res, tag, nn):
+    """conservation in send_pixels: on every path round the staging loop, and on every path that leaves it for the
+    SPI write, N x (pixels taken from the caller's stream) == bytes added to the staged length + bytes written.
+    A pixel taken and not staged (e.g. an iterator adaptor that pulls from the stream before it finds the buffer
+    full) breaks it."""
+    writes = [e for o in res.outcomes for e in TR.flatten_events(o.state.trace, res.loops) if e.kind == "call" and TR.classify(e).cls == "SPI_WRITE"]
+    metas = [e.args[1].meta.poly() for e in writes if isinstance(e.args[1], Ptr) and e.args[1].meta is not None]
+    matoms = set()
+    for m_ in metas:
+        matoms |= set(m_.atoms())
+    nstaging = 0
+    for lid, l in sorted(res.loops.items()):
+        est = l.get("entry_state")
+        root_i = None
+        if est is not None:
+            for r, v in est.mem.items():
+                if isinstance(v, IntV) and v.poly().is_atom() in matoms and v.poly().is_atom() is not None:
+                    root_i = r
+        for ci, c in enumerate(l["cont"]):
+            anns = TR.annotate(c["trace"], None)
+            k, und = pulls_some(ex, c["state"].facts, anns)
+            if und:
+                R.undecided("C06", "%s|%s|pull-undecided" % (tag, lid.split("@")[1].split("/")[0]), "whether the stream yielded a pixel at %s is not decided on a loop path" % und[:2])
+                continue
+            if k == 0:
+                continue
+            nstaging += 1
+            key = "%s|loop@%s|path%d" % (tag, lid.split("@")[1].split("/")[0], ci)
+            if root_i is None:
+                R.undecided("C06", key + "|staged-length", "a loop path takes %d pixel(s) from the stream but the staged-length counter "
+                            "(the local that bounds the SPI write) is not carried by this loop" % k)
+                continue
+            f = c["state"].facts
+            i0, i1 = est.mem[root_i], c["state"].mem.get(root_i)
+            written = ZERO
+            for a_ in anns:
+                if TR.classify(a_["ev"]).cls == "SPI_WRITE" and isinstance(a_["ev"].args[1], Ptr) and a_["ev"].args[1].meta is not None:
+                    written = written + a_["ev"].args[1].meta.poly()
+            ok = isinstance(i1, IntV)
+            if ok:
+                d = f.simplify(i1.poly() - i0.poly() + written - nn * k)
+                ok = f.entails_ge0(d, use_eq=True) is not None and f.entails_ge0(-d, use_eq=True) is not None
+            R.ob("C06c-pulled-equals-staged", key, ok,
+                 "a path round the staging loop takes %d pixel(s) from the stream but stages %r bytes (N = const N)"
+                 % (k, f.simplify(i1.poly() - i0.poly() + written) if isinstance(i1, IntV) else None),
+                 sample={"loop": lid.split("::")[-1], "pixels_taken": k, "staged_delta": repr(f.simplify(i1.poly() - i0.poly())) if isinstance(i1, IntV) else None})
+    R.floor(tag + " staging-loop paths that take a pixel", nstaging, 1)
+    # paths that leave a loop and reach the write (or the end) : nothing may be taken from the stream on the way
+    traces = [(o.state.trace, o.state.facts, "outcome") for o in res.outcomes if o.kind != "panic"]
+    for lid, l in res.loops.items():
+        for c in l["cont"]:
+            traces.append((c["trace"], c["state"].facts, "loop@" + lid.split("@")[1].split("/")[0]))
+    nseg = 0
+    seen = set()
+    for tr_, facts, what in traces:
+        anns = TR.annotate(tr_, None)
+        # position of loop marks among the top-level items: events after the last LoopMark up to the first SPI write
+        idx = [i for i, it in enumerate(tr_) if isinstance(it, E.LoopMark)]
+        if not idx:
+            continue
+        seg = tr_[idx[-1] + 1:]
+        sanns = []
+        for a_ in TR.annotate(seg, None):
+            if TR.classify(a_["ev"]).cls == "SPI_WRITE":
+                break
+            sanns.append(a_)
+        k, und = pulls_some(ex, facts, sanns)
+        nseg += 1
+        key = "%s|exit-of-%s|%s" % (tag, tr_[idx[-1]].loop_id.split("@")[1].split("/")[0], what)
+        if key in seen and k == 0 and not und:
+            continue
+        seen.add(key)
+        R.ob("C06c-no-pixel-taken-and-dropped", key, k == 0 and not und,
+             "on a path that leaves the staging loop %d pixel(s) are taken from the caller's stream (%s) and not staged before the "
+             "write: they are lost" % (k + len(und), [TR.where(a_["ev"]) for a_ in sanns if is_pixel_pull(a_["ev"])][:2]))
+    R.floor(tag + " loop-exit segments", nseg, 1)
+
+
 def run(R):
     R.trusted = ["rustc nightly MIR construction", "AIM interpreter (loops by havoc-to-fixpoint, never unrolled)",
                  "embedded-hal SpiDevice::write / OutputPin contracts", "finite iterators (chunks, caller streams) end",
@@ -77,6 +181,8 @@ def run(R):
                      "the slice written at %s has length %r: it must be the part of the buffer staged in this round, not the whole "
                      "buffer (stale bytes would be sent)" % (TR.where(s.ev), meta), TR.where(s.ev),
                      sample={"fn": mname, "write": TR.where(s.ev), "length": repr(meta)})
+            if mname == "send_pixels":
+                check_no_pixel_dropped(R, F, ex, res, tag, nn)
             # (e) loop progress
             R.floor(tag + " loops", len(res.loops), 2)
             for lid, l in sorted(res.loops.items()):
